@@ -552,6 +552,9 @@ func corpusSeries(r *hx.Rand) {
 	// shared baseline cell (see aliasShape)
 	seriesCaseN(aliasShape(r, 5, 2), 0, 1, r, []string{"corpus", "alias", "multiexp", "multiser"}, 8)
 	seriesCaseN(aliasShape(r, 5, 2), 0, 0, r, []string{"corpus", "alias", "multiexp", "multiser"}, 3)
+	// cells with more than 32 measurements, Tip file first / Base file first, both policies
+	seriesCaseN(bigShape(r, 2, false, false), 0, 0, r, []string{"corpus", "bigcell", "large"}, 2)
+	seriesCaseN(bigShape(r, 2, true, true), 2, 1, r, []string{"corpus", "bigcell", "multiexp", "large"}, 2)
 	// interleaving experiments of one point
 	seriesCaseN(interleaveShape(r, 3, 2, false), 2, 1, r, []string{"corpus", "interleave", "multiexp"}, 3)
 	seriesCaseN(interleaveShape(r, 3, 2, false), 2, 0, r, []string{"corpus", "interleave", "multiexp"}, 3)
@@ -584,6 +587,35 @@ func aliasShape(r *hx.Rand, nden, nhash int) []res {
 		rs = append(rs, mk("den", e, h, float64(20+10*h)+float64(r.Intn(4))))
 	}
 	return rs
+}
+
+// bigShape: cells with MORE than 32 measurements (33..80), several benchmarks x both roles in one Builder, added
+// role by role (all numerator results first — "the Tip file" — then all baselines, or the other way round) so that
+// cells are created next to each other and then keep growing; values identify their benchmark and role.
+func bigShape(r *hx.Rand, nbench int, baseFirst bool, twoExp bool) []res {
+	var nums, dens []res
+	for bi := 0; bi < nbench; bi++ {
+		nexp := 1
+		if twoExp {
+			nexp = 2
+		}
+		for e := 0; e < nexp; e++ {
+			mk := func(role string, x float64) res {
+				return res{table: []string{"amd64", "linux"}, bench: benches[bi], exp: expsA[e], ser: stampsA[0], role: role, nh: "n0", dh: "d0", units: []string{"ns/op"}, vals: []float64{x}}
+			}
+			na, nd := 33+r.Intn(48), 33+r.Intn(48)
+			for j := 0; j < na; j++ {
+				nums = append(nums, mk("num", float64(1000*(bi+1)+100*e)+float64(r.Intn(90))+float64(j)/128))
+			}
+			for j := 0; j < nd; j++ {
+				dens = append(dens, mk("den", float64(10000*(bi+1)+100*e)+float64(r.Intn(90))+float64(j)/128))
+			}
+		}
+	}
+	if baseFirst {
+		return append(dens, nums...)
+	}
+	return append(nums, dens...)
 }
 
 // interleaveShape: one point (benchmark, numerator hash) measured in nexp >= 3 experiments whose values
@@ -880,6 +912,14 @@ func multiCases(r *hx.Rand) {
 	multiCase([]point{{[]float64{0}, []float64{1, 2}}, {[]float64{0}, []float64{4, 5, 6}}, {[]float64{3}, []float64{0}}}, 0.8, 4, "corpus+seedzero")
 	multiCase([]point{{[]float64{100}, []float64{200}}, {[]float64{200}, []float64{100}}}, 0.95, 10, "corpus+mirror+exact")
 	multiCase([]point{{a, b}, {b, nil}, {a, nil}, {b, a}}, 0.9, 5, "corpus+incomplete")
+	big := func(n int, base float64) []float64 {
+		out := make([]float64, n)
+		for i := range out {
+			out[i] = base + float64((i*37)%n) + 0.5
+		}
+		return out
+	}
+	multiCase([]point{{big(40, 100), big(35, 1000)}, {big(33, 5000), big(64, 300)}, {big(34, 7000), big(33, 9000)}}, 0.9, 5, "corpus+bigcell")
 	nm := hx.N(120, 2000)
 	confs := []float64{0.95, 0.9, 0.99, 0.8, 0.5}
 	for i := 0; i < nm; i++ {
@@ -1052,6 +1092,16 @@ func incrCase(pts []point, cut []([2]int), conf float64, n int, tag string) {
 func incrCases(r *hx.Rand) {
 	incrCase([]point{{[]float64{10, 11, 12, 13}, []float64{20, 21, 23}}}, [][2]int{{2, 2}}, 0.95, 10, "corpus+incr")
 	incrCase([]point{{[]float64{10, 14, 12}, []float64{20, 21, 23, 19}}, {[]float64{5, 6}, []float64{7, 9, 8}}}, [][2]int{{1, 3}, {2, 1}}, 0.9, 5, "corpus+incr")
+	{
+		bigv := func(n int, base float64) []float64 {
+			out := make([]float64, n)
+			for i := range out {
+				out[i] = base + float64((i*29)%n) + 0.25
+			}
+			return out
+		}
+		incrCase([]point{{bigv(50, 100), bigv(45, 1000)}, {bigv(40, 5000), bigv(36, 300)}}, [][2]int{{20, 30}, {35, 10}}, 0.9, 5, "corpus+incr+bigcell")
+	}
 	ni := hx.N(100, 1500)
 	confs := []float64{0.95, 0.9, 0.99, 0.8, 0.5}
 	for i := 0; i < ni; i++ {
@@ -1369,6 +1419,15 @@ func main() {
 	na := hx.N(8, 150)
 	for i := 0; i < na; i++ {
 		seriesCaseN(aliasShape(r, []int{5, 3, 6, 2}[r.Intn(4)], 2+r.Intn(2)), 0, 1, r, []string{"alias", "multiexp", "multiser", "large"}, 4)
+	}
+	nbc := hx.N(4, 40)
+	for i := 0; i < nbc; i++ {
+		two := r.Bool()
+		tg := []string{"bigcell", "large"}
+		if two {
+			tg = append(tg, "multiexp")
+		}
+		seriesCaseN(bigShape(r, 2+r.Intn(2), r.Bool(), two), []int{0, 2}[r.Intn(2)], r.Intn(2), r, tg, 2)
 	}
 	ni := hx.N(8, 150)
 	for i := 0; i < ni; i++ {
